@@ -308,6 +308,32 @@ Section Seq.
       all: apply IH; [exact Hs'|apply (sinv_active o st0 h0 sp0 cl' w' Hs'); rewrite Epc; discriminate|exact Hok|lia].
   Qed.
 
+  Lemma run_ops_nil o st0 h0 sp0 : forall n cl w,
+    SInv o st0 h0 sp0 cl w -> active cl = Some o -> ops (fst (run_caller T c (S n) cl w)) = [].
+  Proof.
+    induction n as [|n IH]; intros cl w Hs Ha.
+    - cbn [run_caller]. pose proof (caller_step_log T c cl w o Ha) as (_ & Lo & _).
+      destruct Hs as (st & _ & _ & _ & _ & _ & _ & Hj).
+      assert (Ho : ops (fst (caller_step T c cl w)) = []).
+      { rewrite Lo. destruct Hj as [(J1 & J2 & J3 & _)|[(J1 & J3 & _)|(x & J1 & J3 & _)]].
+        - rewrite J2, J3. reflexivity.
+        - destruct (cpc cl); rewrite J3; reflexivity.
+        - destruct (cpc cl); rewrite J3; reflexivity. }
+      destruct (caller_step T c cl w) as [cl' w']. cbn [fst snd] in *. destruct (cpc cl'); exact Ho.
+    - change (run_caller T c (S (S n)) cl w) with
+        (let '(cl', w') := caller_step T c cl w in match cpc cl' with PIdle => (cl', w') | _ => run_caller T c (S n) cl' w' end).
+      pose proof (sinv_step o st0 h0 sp0 cl w Hs Ha) as Hs'. pose proof (caller_step_log T c cl w o Ha) as (_ & Lo & _).
+      destruct Hs as (st & _ & _ & _ & _ & _ & _ & Hj).
+      assert (Ho : ops (fst (caller_step T c cl w)) = []).
+      { rewrite Lo. destruct Hj as [(J1 & J2 & J3 & _)|[(J1 & J3 & _)|(x & J1 & J3 & _)]].
+        - rewrite J2, J3. reflexivity.
+        - destruct (cpc cl); rewrite J3; reflexivity.
+        - destruct (cpc cl); rewrite J3; reflexivity. }
+      destruct (caller_step T c cl w) as [cl' w']. cbn [fst snd] in *.
+      destruct (cpc cl') eqn:Epc; [exact Ho|..].
+      all: apply IH; [exact Hs'|apply (sinv_active o st0 h0 sp0 cl' w' Hs'); rewrite Epc; discriminate].
+  Qed.
+
   Lemma land_all_nothing w : land_all (length (w_spawned w)) w = w.
   Proof. unfold land_all. rewrite skipn_all. reflexivity. Qed.
 
@@ -327,33 +353,91 @@ Section Seq.
       - left. cbn. auto 10. }
     assert (Ha : active (init_caller 0 [o] []) = Some o) by reflexivity.
     pose proof (sinv_run o _ _ _ 12 _ _ Hs Ha) as Hs'.
-    pose proof (run_terminates o _ _ _ 12 _ _ Hs Ha Hok) as Ht. unfold rkc in Ht. cbn in Ht. specialize (Ht ltac:(lia)).
+    assert (Hrk : rkc (init_caller 0 [o] []) <= 12) by (unfold rkc, init_caller; cbn [cpc ops]; lia).
+    pose proof (run_terminates o _ _ _ 12 _ _ Hs Ha Hok Hrk) as Ht.
     unfold exec_op. destruct (run_caller T c 12 (init_caller 0 [o] []) w) as [cl w1] eqn:Er. cbn [fst snd] in *.
     destruct Hs' as (st & Hci & Hcv1 & HL1 & Hpv1 & Hsp & Hme & Hj). rewrite Ht.
     assert (Hh : held cl = false).
     { unfold cinv in Hci. destruct Hci as (_ & _ & Hm). rewrite Ht in Hm. destruct (held cl); [contradiction|reflexivity]. }
     destruct Hj as [(J1 & J2 & J3 & J4 & J5 & J6)|[(J1 & J3 & J4 & J5 & J6)|(x & J1 & J3 & J4 & J5 & J6)]].
     - (* still before its first step: impossible, run_caller made at least one step *)
-      exfalso. cbn [run_caller] in Er.
-      pose proof (sinv_step o _ _ _ _ _ Hs Ha) as H1.
-      destruct (caller_step T c (init_caller 0 [o] []) w) as [cl0 w0]. cbn [fst snd] in H1.
-      assert (Hne : forall cl2 w2, SInv o (visible T c w k) (w_hist w) (w_spawned w) cl2 w2 -> ops cl2 = [] -> forall n, ops (fst (run_caller T c n cl2 w2)) = []).
-      { intros cl2 w2 H2 Ho2 n. revert cl2 w2 H2 Ho2. induction n as [|n IHn]; intros cl2 w2 H2 Ho2; cbn [run_caller]; [exact Ho2|].
-        destruct (cpc cl2) eqn:Ep2.
-        - unfold caller_step. rewrite Ep2, Ho2. cbn. rewrite Ep2. exact Ho2.
-        - all: assert (Ha2 : active cl2 = Some o) by (apply (sinv_active o _ _ _ cl2 w2 H2); rewrite Ep2; discriminate).
-          all: pose proof (sinv_step o _ _ _ cl2 w2 H2 Ha2) as H3; pose proof (caller_step_log T c cl2 w2 o Ha2) as (_ & Lo & _); rewrite Ep2, Ho2 in Lo.
-          all: destruct (caller_step T c cl2 w2) as [cl3 w3]; cbn [fst snd] in *.
-          all: destruct (cpc cl3); [exact Lo|..]; apply IHn; assumption. }
-      assert (Ho0 : ops cl0 = []).
-      { pose proof (caller_step_log T c (init_caller 0 [o] []) w o Ha) as (_ & Lo & _). cbn in Lo.
-        destruct (caller_step T c (init_caller 0 [o] []) w) as [a b]. cbn in Lo. inversion H1; subst. 
-        assumption. }
-      destruct (cpc cl0); [inversion Er; subst; congruence|..].
-      all: pose proof (Hne cl0 w0 H1 Ho0 11) as Hx; rewrite Er in Hx; cbn in Hx; congruence.
+      exfalso. pose proof (run_ops_nil o _ _ _ 11 _ _ Hs Ha) as Hx. rewrite Er in Hx. cbn [fst] in Hx. congruence.
     - exfalso. unfold cinv in Hci. destruct Hci as (_ & _ & Hm). rewrite Ht, Hh, J1 in Hm. exact Hm.
     - rewrite J3, J5. cbn [fst snd]. exists x. split; [reflexivity|].
       rewrite <- Hsp. rewrite land_all_nothing. fold ct in Hcv1.
       destruct (free_views T c k w1 st Hcv1 (Hpv1 Hh)) as [Hv Hc]. rewrite Hv. split; [exact J6|]. split; [exact Hc|congruence].
   Qed.
 End Seq.
+
+Section SeqThms.
+  Variable T : tables.
+  Variable c : cfg.
+  Hypothesis Hfi : fix_incr c = true.
+  Hypothesis Hfn : fix_setnx c = true.
+  Hypothesis Hwb : fix_wb c = true.
+  Hypothesis Hfl : fix_list c = true.
+  Hypothesis Hexp : exp_locked c = true.
+  Variable k : kbytes.
+
+  Definition not_setexp (o : op) : Prop := match o with OSetExp _ => False | _ => True end.
+
+  (* read-your-writes for ANY sequence of non-overlapping operations on one key, every key class, from every coherent state *)
+  Theorem seq_refines_spec : forall os w,
+    Forall (fun o => lop_ok T c k o /\ not_setexp o) os -> coherent T c w k -> w_locks w k = false ->
+    snd (exec_seq T c w os) = snd (spec_seq (visible T c w k) os) /\
+    visible T c (fst (exec_seq T c w os)) k = fst (spec_seq (visible T c w k) os) /\
+    coherent T c (fst (exec_seq T c w os)) k.
+  Proof.
+    induction os as [|o r IH]; intros w Hos Hco HL; cbn [exec_seq spec_seq fst snd]; [auto|].
+    inversion Hos as [|? ? [Hok Hne] Hr]; subst.
+    destruct (exec_op_repaired T c Hfi Hfn Hwb Hfl Hexp k w o Hok Hco HL) as (x & E1 & Heff & Hco1 & HL1).
+    destruct (exec_op T c w o) as [w1 xo]. cbn [fst snd] in *. subst xo.
+    specialize (IH w1 Hr Hco1 HL1). destruct (exec_seq T c w1 r) as [w2 xs]. cbn [fst snd] in *.
+    assert (Es : visible T c w1 k = fst (spec_op (visible T c w k) o) /\ x = snd (spec_op (visible T c w k) o)).
+    { destruct Heff as [H|(kk & -> & _)]; [exact H|contradiction]. }
+    destruct Es as [Es1 Es2].
+    destruct (spec_op (visible T c w k) o) as [st1 y]. cbn [fst snd] in *. rewrite Es1 in IH.
+    destruct (spec_seq st1 r) as [st2 ys]. cbn [fst snd] in *. destruct IH as (I1 & I2 & I3). subst. auto.
+  Qed.
+
+  (* cross-node visibility: a key whose class has a common tier, written or deleted by ANY node, is read exactly so by a node with a cold
+     local cache — from every multi-node world in which the writer's own view of the key is coherent *)
+  Lemma cold_view (m : mworld) w1 i j :
+    cross_visible T c k = true -> length (m_locals m) <= j -> coherent T c w1 k ->
+    let m1 := {| m_locals := upd_nth i (w_local w1) (m_locals m); m_shared := w_shared w1; m_pers := w_pers w1 |} in
+    visible T c (node_world m1 j) k = visible T c w1 k /\ coherent T c (node_world m1 j) k /\ w_locks (node_world m1 j) k = false.
+  Proof.
+    intros Hcv Hj Hco m1. unfold node_world, m1. cbn [m_locals m_shared m_pers].
+    rewrite (nth_overflow (upd_nth i (w_local w1) (m_locals m)) empty_store) by (rewrite upd_nth_length; exact Hj).
+    unfold cross_visible in Hcv. unfold visible, coherent in *. cbn [w_locks init_world].
+    destruct (cache_tier_for_key T c k) eqn:Ect; cbn [tget init_world w_local w_shared w_pers tier_eqb] in *.
+    - (* local cache tier: the cold node reads the persistent tier *)
+      rewrite Bool.orb_false_r in Hcv. rewrite Hcv in *. unfold empty_store.
+      destruct (Hco eq_refl) as [H|H]; rewrite H; [auto|]. split; [|auto]. destruct (w_pers w1 k); reflexivity.
+    - split; [reflexivity|split; [exact Hco|reflexivity]].
+    - exfalso. unfold cache_tier_for_key, sp_cache in Ect. destruct (category T k), (has_shared c); discriminate.
+  Qed.
+
+  Theorem cross_node_cold_reader (m : mworld) i j v :
+    cross_visible T c k = true -> length (m_locals m) <= j -> coherent T c (node_world m i) k ->
+    snd (mexec T c (fst (mexec T c m i (OSet k v))) j (OGet k)) = Some (RVal v) /\
+    snd (mexec T c (fst (mexec T c m i (ODel k))) j (OGet k)) = Some RNotFound.
+  Proof.
+    intros Hcv Hj Hco.
+    assert (Hgo : forall o stv, lop_ok T c k o -> fst (spec_op (visible T c (node_world m i) k) o) = stv -> not_setexp o ->
+              snd (mexec T c (fst (mexec T c m i o)) j (OGet k)) = Some (val_res stv)).
+    { intros o stv Hok Hst Hne. unfold mexec at 2.
+      destruct (exec_op_repaired T c Hfi Hfn Hwb Hfl Hexp k (node_world m i) o Hok Hco eq_refl) as (x & E1 & Heff & Hco1 & HL1).
+      destruct (exec_op T c (node_world m i) o) as [w1 xo]. cbn [fst snd] in *.
+      assert (Ev : visible T c w1 k = stv) by (destruct Heff as [[H _]|(kk & -> & _)]; [congruence|contradiction]).
+      destruct (cold_view m w1 i j Hcv Hj Hco1) as (V1 & V2 & V3). cbv zeta in V1, V2, V3.
+      unfold mexec.
+      assert (Hok2 : lop_ok T c k (OGet k)) by (split; [reflexivity|intros _; reflexivity]).
+      destruct (exec_op_repaired T c Hfi Hfn Hwb Hfl Hexp k _ (OGet k) Hok2 V2 V3) as (y & F1 & Feff & _ & _).
+      destruct (exec_op T c _ (OGet k)) as [w2 yo]. cbn [fst snd] in *. subst yo.
+      destruct Feff as [[_ H]|(kk & Hx & _)]; [|discriminate]. rewrite H. cbn [spec_op snd]. rewrite V1, Ev. reflexivity. }
+    split.
+    - apply (Hgo (OSet k v) (Some v)); [split; [reflexivity|intros _; reflexivity]|reflexivity|exact I].
+    - apply (Hgo (ODel k) None); [split; [reflexivity|intros _; reflexivity]|reflexivity|exact I].
+  Qed.
+End SeqThms.
